@@ -52,6 +52,8 @@ pub tracked struct World {
     pub ghost p_refs: nat,           // strong count of its Arc<CommandWaker>
     pub ghost p_woken: bool,         // its `woken` flag
     pub ghost p_pending: bool,       // that poll returned Pending
+    pub ghost p_polls: nat,          // how many times Command::run_task has polled a task's future
+    pub ghost aborted_tasks: Set<int>, // identities of tasks whose own abort flag (JoinHandle::abort) is set
 }
 
 /// identity of a value travelling through a channel (uninterpreted: only equality matters)
@@ -67,6 +69,7 @@ pub open spec fn cmd_part_eq(a: World, b: World) -> bool {
     a.c_spawn == b.c_spawn && a.c_ready == b.c_ready && a.c_events == b.c_events && a.c_effects == b.c_effects
     && a.c_aborted == b.c_aborted && a.finished == b.finished && a.known == b.known && a.join_notified == b.join_notified
     && a.p_refs == b.p_refs && a.p_woken == b.p_woken && a.p_pending == b.p_pending
+    && a.p_polls == b.p_polls && a.aborted_tasks == b.aborted_tasks
 }
 /// what anything that runs user code may do to the core's queues: add work, append outputs
 pub open spec fn core_havoc_min(a: World, b: World) -> bool {
@@ -841,6 +844,8 @@ pub mod command_m {
             final(w).known == old(w).known, final(w).finished == old(w).finished, final(w).join_notified == old(w).join_notified,
             final(w).p_refs >= old(w).p_refs,
             final(w).p_pending == (r is Pending),
+            final(w).p_polls == old(w).p_polls + 1,
+            old(w).aborted_tasks.subset_of(final(w).aborted_tasks),
     { unimplemented!() }
     /// ghost bookkeeping of run_task's verdict (rule X1.ghost-verdict): returns its argument
     pub fn verdict(Tracked(w): Tracked<&mut World>, task: &Task, r: TaskState) -> (out: TaskState)
@@ -858,15 +863,14 @@ pub mod command_m {
     }
 
     impl Task {
-//@extract id=Task::is_aborted file=crux_core/src/command/executor.rs within="impl Task" item="fn is_aborted" props=C01+C13
-//@expect pub(crate) fn is_aborted(&self) -> bool
-//@sig pub fn is_aborted(&self, Tracked(w): Tracked<&mut World>) -> (r: bool)
-//@contract
+        // ASSUMED: `self.aborted.load(Ordering::Acquire)` reads the task's own abort flag (set by
+        // JoinHandle::abort), read sequentially
+        #[verifier::external_body]
+        pub fn is_aborted(&self, Tracked(w): Tracked<&mut World>) -> (r: bool)
             ensures
-                *final(w) == *old(w) || (self.aborted.flag() is CommandAborted), // the task's own flag, not the command's
-                self.aborted.flag() is CommandAborted ==> *final(w) == *old(w),
-//@rule X6.world * s/\.load\(/.load(Tracked(w), /
-//@end
+                r == old(w).aborted_tasks.contains(val_id(*self)),
+                *final(w) == *old(w),
+        { unimplemented!() }
 
         // ASSUMED (havoc): waking join handles wakes other tasks, which re-queues their ids.
         // (body: a `for` over crossbeam's try_iter calling Waker::wake - user wakers)
@@ -890,6 +894,11 @@ pub mod command_m {
     /// awaiting it becomes runnable again)
     pub open spec fn joiners_notified(w: World) -> bool {
         w.finished.subset_of(w.join_notified)
+    }
+    /// every task of `a` is still held by `b` (same slot, same task) or has been reported
+    /// finished or cancelled: a task that something can still wake is never discarded (C07)
+    pub open spec fn discarded_only_finished(a: Map<usize, Task>, b: Map<usize, Task>, w: World) -> bool {
+        forall|k: usize| #[trigger] a.dom().contains(k) ==> (b.dom().contains(k) && val_id(b[k]) == val_id(a[k])) || w.finished.contains(val_id(a[k]))
     }
     pub open spec fn tasks_kept(a: Map<usize, Task>, b: Map<usize, Task>) -> bool {
         forall|k: usize| #[trigger] a.dom().contains(k) ==> b.dom().contains(k) && b[k] == a[k]
@@ -919,7 +928,7 @@ pub mod command_m {
             && self.ready_sender.role() is CReady && self.aborted.flag() is CommandAborted
         }
 
-//@extract id=Command::run_task file=crux_core/src/command/executor.rs within="impl<Effect, Event> Command<Effect, Event>" item="fn run_task" props=C01+C13
+//@extract id=Command::run_task file=crux_core/src/command/executor.rs within="impl<Effect, Event> Command<Effect, Event>" item="fn run_task" props=C01+C06+C07+C13
 //@expect pub(crate) fn run_task(&mut self, task_id: TaskId) -> TaskState
 //@sig pub fn run_task(&mut self, Tracked(w): Tracked<&mut World>, task_id: TaskId) -> (r: TaskState)
 //@contract
@@ -927,15 +936,19 @@ pub mod command_m {
                 old(self).wf(),
             ensures
                 final(self).wf(),
-                final(self).tasks@.dom() =~= old(self).tasks@.dom(), // [C01+C13/command-run_task/adds-and-removes-no-task]
-                forall|k: usize| #[trigger] old(self).tasks@.dom().contains(k) ==> val_id(final(self).tasks@[k]) == val_id(old(self).tasks@[k]), // [C01+C13/command-run_task/every-slot-still-holds-the-same-task]
+                final(self).tasks@.dom() =~= old(self).tasks@.dom(), // [C01+C06+C07+C13/command-run_task/adds-and-removes-no-task]
+                forall|k: usize| #[trigger] old(self).tasks@.dom().contains(k) ==> val_id(final(self).tasks@[k]) == val_id(old(self).tasks@[k]), // [C01+C06+C13/command-run_task/every-slot-still-holds-the-same-task]
+                forall|k: usize| #[trigger] old(self).tasks@.dom().contains(k) && k != task_id.0 ==> final(self).tasks@[k] == old(self).tasks@[k], // [C06/command-run_task/sibling-tasks-are-not-touched]
                 final(w).known == old(w).known,
                 r is Missing <==> !old(self).tasks@.dom().contains(task_id.0), // [C01/command-run_task/missing-iff-the-slot-is-vacant]
                 r is Missing ==> *final(w) == *old(w), // [C01/command-run_task/a-vacant-slot-changes-nothing]
                 (r is Completed || r is Cancelled) ==> final(w).finished == old(w).finished.insert(val_id(old(self).tasks@[task_id.0])),
                 (r is Suspended || r is Missing) ==> final(w).finished == old(w).finished,
-                r is Cancelled ==> final(w).p_pending && !final(w).p_woken && final(w).p_refs < 2, // [C13/command-run_task/a-task-is-discarded-as-cancelled-only-when-nothing-can-wake-it-again]
-                r is Suspended ==> final(w).p_pending && (final(w).p_woken || final(w).p_refs >= 2), // [C13/command-run_task/a-pending-task-that-nothing-can-wake-again-is-not-kept]
+                r is Completed ==> old(w).aborted_tasks.contains(val_id(old(self).tasks@[task_id.0])) || !final(w).p_pending, // [C07/command-run_task/a-task-is-reported-completed-only-if-aborted-or-its-future-finished]
+                r is Cancelled ==> final(w).p_pending && !final(w).p_woken && final(w).p_refs < 2, // [C07+C13/command-run_task/a-task-is-discarded-as-cancelled-only-when-nothing-can-wake-it-again]
+                r is Suspended ==> final(w).p_pending && (final(w).p_woken || final(w).p_refs >= 2), // [C07+C13/command-run_task/a-pending-task-that-nothing-can-wake-again-is-not-kept]
+                old(self).tasks@.dom().contains(task_id.0) && old(w).aborted_tasks.contains(val_id(old(self).tasks@[task_id.0])) ==> r is Completed && final(w).p_polls == old(w).p_polls && final(w).c_events == old(w).c_events && final(w).c_effects == old(w).c_effects, // [C06/command-run_task/an-aborted-task-is-reported-completed-without-being-polled-and-emits-nothing]
+                final(w).p_polls <= old(w).p_polls + 1, // [C06+C07/command-run_task/at-most-the-addressed-task-is-polled-once]
                 cmd_outputs_appended(*old(w), *final(w)), // [C01/command-run_task/outputs-only-appended]
                 old(w).c_aborted ==> final(w).c_aborted,
                 final(w).join_notified == old(w).join_notified,
@@ -951,7 +964,7 @@ pub mod command_m {
 //@rule X1.ghost-verdict 1 s/\n(\s+)result\n(\s+)\}$/\n\1verdict(Tracked(w), task, result)\n\2}/
 //@end
 
-//@extract id=Command::was_aborted file=crux_core/src/command/executor.rs within="impl<Effect, Event> Command<Effect, Event>" item="fn was_aborted" props=C01+C13
+//@extract id=Command::was_aborted file=crux_core/src/command/executor.rs within="impl<Effect, Event> Command<Effect, Event>" item="fn was_aborted" props=C01+C06+C13
 //@expect pub fn was_aborted(&self) -> bool
 //@sig pub fn was_aborted(&self, Tracked(w): Tracked<&mut World>) -> (r: bool)
 //@contract
@@ -963,7 +976,7 @@ pub mod command_m {
 //@rule X6.world * s/\.load\(/.load(Tracked(w), /
 //@end
 
-//@extract id=Command::spawn_new_tasks file=crux_core/src/command/executor.rs within="impl<Effect, Event> Command<Effect, Event>" item="fn spawn_new_tasks" props=C01+C13
+//@extract id=Command::spawn_new_tasks file=crux_core/src/command/executor.rs within="impl<Effect, Event> Command<Effect, Event>" item="fn spawn_new_tasks" props=C01+C07+C13
 //@expect pub(crate) fn spawn_new_tasks(&mut self)
 //@sig pub fn spawn_new_tasks(&mut self, Tracked(w): Tracked<&mut World>)
 //@attr #[verifier::exec_allows_no_decreases_clause]
@@ -997,7 +1010,7 @@ pub mod command_m {
                     w.c_spawn == 0,
 //@end
 
-//@extract id=Command::run_until_settled file=crux_core/src/command/executor.rs within="impl<Effect, Event> Command<Effect, Event>" item="fn run_until_settled" props=C01+C13
+//@extract id=Command::run_until_settled file=crux_core/src/command/executor.rs within="impl<Effect, Event> Command<Effect, Event>" item="fn run_until_settled" props=C01+C06+C07+C13
 //@expect pub(crate) fn run_until_settled(&mut self)
 //@sig pub fn run_until_settled(&mut self, Tracked(w): Tracked<&mut World>)
 //@attr #[verifier::exec_allows_no_decreases_clause]
@@ -1010,7 +1023,8 @@ pub mod command_m {
                 final(self).wf(),
                 no_finished_task_held(*final(self), *final(w)), // [C13/run_until_settled/a-finished-or-cancelled-task-is-removed-and-dropped]
                 joiners_notified(*final(w)), // [C01/run_until_settled/whoever-awaits-a-finished-or-cancelled-task-has-been-woken]
-                old(w).c_aborted ==> final(self).tasks@ == Map::<usize, Task>::empty() && *final(w) == *old(w), // [C13/run_until_settled/an-aborted-command-drops-all-its-tasks]
+                old(w).c_aborted ==> final(self).tasks@ == Map::<usize, Task>::empty() && *final(w) == *old(w), // [C06+C13/run_until_settled/an-aborted-command-drops-all-its-tasks-polls-none-and-emits-nothing-more]
+                !old(w).c_aborted ==> discarded_only_finished(old(self).tasks@, final(self).tasks@, *final(w)), // [C07/run_until_settled/only-finished-or-cancelled-tasks-are-discarded]
                 !old(w).c_aborted ==> final(w).c_spawn == 0 && final(w).c_ready == 0, // [C01/run_until_settled/no-runnable-work-left-behind]
                 cmd_outputs_appended(*old(w), *final(w)), // [C01/run_until_settled/outputs-only-appended]
                 old(w).c_aborted ==> final(w).c_aborted,
@@ -1029,21 +1043,26 @@ pub mod command_m {
                     !old(w).c_aborted,
                     no_finished_task_held(*self, *w), // [C13/run_until_settled/loop/no-finished-task-held-between-passes]
                     joiners_notified(*w),
+                    discarded_only_finished(old(self).tasks@, self.tasks@, *w),
+                    old(w).finished.subset_of(w.finished),
                     cmd_outputs_appended(*old(w), *w),
                     old(w).c_spawn == 0 && old(w).c_ready == 0 ==> *w == *old(w) && self.tasks@ == old(self).tasks@,
                 ensures
                     w.c_spawn == 0 && w.c_ready == 0,
                     self.wf(), no_finished_task_held(*self, *w), cmd_outputs_appended(*old(w), *w), joiners_notified(*w),
+                    discarded_only_finished(old(self).tasks@, self.tasks@, *w),
                     old(w).c_spawn == 0 && old(w).c_ready == 0 ==> *w == *old(w) && self.tasks@ == old(self).tasks@,
 //@loop 2
                     invariant
                         self.wf(),
                         no_finished_task_held(*self, *w), // [C13/run_until_settled/inner-loop/a-task-reported-finished-or-cancelled-is-removed-before-the-next-one-runs]
                         joiners_notified(*w), // [C01/run_until_settled/inner-loop/join-handles-of-a-finished-or-cancelled-task-are-woken-before-the-next-task-runs]
+                        discarded_only_finished(old(self).tasks@, self.tasks@, *w), // [C07/run_until_settled/inner-loop/a-task-is-removed-only-after-being-reported-finished-or-cancelled]
+                        old(w).finished.subset_of(w.finished),
                         cmd_outputs_appended(*old(w), *w),
 //@end
 
-//@extract id=Command::poll_next file=crux_core/src/command/stream.rs within="impl<Effect, Event> Stream for Command<Effect, Event>" item="fn poll_next" props=C01
+//@extract id=Command::poll_next file=crux_core/src/command/stream.rs within="impl<Effect, Event> Stream for Command<Effect, Event>" item="fn poll_next" props=C01+C06+C07+C13
 //@expect fn poll_next(mut self: Pin<&mut Self>, cx: &mut Context<'_>) -> Poll<Option<Self::Item>>
 //@sig pub fn poll_next(&mut self, Tracked(w): Tracked<&mut World>, cx: &mut Context) -> (r: Poll<Option<CommandOutput<Effect, Event>>>)
 //@contract
@@ -1058,17 +1077,17 @@ pub mod command_m {
                 // queued events first, exactly one item per poll, nothing lost:
                 (r matches Poll::Ready(Some(CommandOutput::Event(e))) ==> old(w).c_events.is_prefix_of(seq![val_id(e)] + final(w).c_events) && old(w).c_effects.is_prefix_of(final(w).c_effects)), // [C01/poll_next/event-yielded-is-the-head-exactly-one-item-removed]
                 (r matches Poll::Ready(Some(CommandOutput::Effect(f))) ==> final(w).c_events.len() == 0 && old(w).c_events.len() == 0 && old(w).c_effects.is_prefix_of(seq![val_id(f)] + final(w).c_effects)), // [C01/poll_next/effect-yielded-only-when-no-event-waits-head-exactly-one-item-removed]
-                (r matches Poll::Ready(None) ==> final(w).c_events.len() == 0 && final(w).c_effects.len() == 0 && final(self).tasks@.dom() =~= Set::<usize>::empty()), // [C01/poll_next/end-of-stream-only-when-nothing-is-pending-and-no-task-is-left]
-                (r is Pending ==> final(w).c_events.len() == 0 && final(w).c_effects.len() == 0 && !(final(self).tasks@.dom() =~= Set::<usize>::empty())), // [C01/poll_next/pending-only-when-both-queues-are-empty-and-a-task-remains]
+                (r matches Poll::Ready(None) ==> final(w).c_events.len() == 0 && final(w).c_effects.len() == 0 && final(self).tasks@.dom() =~= Set::<usize>::empty()), // [C01+C07/poll_next/end-of-stream-only-when-nothing-is-pending-and-no-task-is-left]
+                (r is Pending ==> final(w).c_events.len() == 0 && final(w).c_effects.len() == 0 && !(final(self).tasks@.dom() =~= Set::<usize>::empty())), // [C01+C07/poll_next/pending-only-when-both-queues-are-empty-and-a-task-remains]
                 (r is Pending && !old(w).c_aborted ==> final(w).c_spawn == 0 && final(w).c_ready == 0), // [C01/poll_next/pending-only-when-settled]
-                (r is Pending ==> !final(w).c_aborted), // [C01+C13/poll_next/an-aborted-command-never-stays-pending-in-its-host]
+                (r is Pending ==> !final(w).c_aborted), // [C01+C06+C13/poll_next/an-aborted-command-never-stays-pending-in-its-host]
                 (final(w).c_aborted && !(r matches Poll::Ready(Some(_))) ==> final(self).tasks@.dom() =~= Set::<usize>::empty()), // [C13/poll_next/an-aborted-command-with-no-output-left-holds-no-task]
 //@rule X12.pin-erasure 1 s/self\.deref_mut\(\)\.run_until_settled\(\)/self.run_until_settled(Tracked(w))/
 //@rule X6.world * s/\.try_recv\(\)/.try_recv(Tracked(w))/
 //@rule X6.world * s/self\.is_done\(\)/self.is_done(Tracked(w))/
 //@end
 
-//@extract id=Command::is_done file=crux_core/src/command/mod.rs within="impl<Effect, Event> Command<Effect, Event>" item="fn is_done" props=C01+C13
+//@extract id=Command::is_done file=crux_core/src/command/mod.rs within="impl<Effect, Event> Command<Effect, Event>" item="fn is_done" props=C01+C06+C07+C13
 //@expect pub fn is_done(&mut self) -> bool
 //@sig pub fn is_done(&mut self, Tracked(w): Tracked<&mut World>) -> (r: bool)
 //@contract
@@ -1080,7 +1099,8 @@ pub mod command_m {
                 final(self).wf(),
                 no_finished_task_held(*final(self), *final(w)),
                 joiners_notified(*final(w)),
-                r <==> (final(w).c_effects.len() == 0 && final(w).c_events.len() == 0 && final(self).tasks@.dom() =~= Set::<usize>::empty()), // [C01+C13/is_done/done-iff-no-output-pending-and-no-task-left]
+                r <==> (final(w).c_effects.len() == 0 && final(w).c_events.len() == 0 && final(self).tasks@.dom() =~= Set::<usize>::empty()), // [C01+C07+C13/is_done/done-iff-no-output-pending-and-no-task-left]
+                old(w).c_aborted ==> (r <==> (final(w).c_effects.len() == 0 && final(w).c_events.len() == 0)), // [C06/is_done/an-aborted-command-is-done-as-soon-as-its-already-emitted-outputs-are-taken]
                 !old(w).c_aborted ==> final(w).c_spawn == 0 && final(w).c_ready == 0, // [C01/is_done/settles-first]
                 cmd_outputs_appended(*old(w), *final(w)),
                 !old(w).c_aborted && old(w).c_spawn == 0 && old(w).c_ready == 0 ==> *final(w) == *old(w) && final(self).tasks@ == old(self).tasks@,
